@@ -1,5 +1,6 @@
 /- Property C07: the property theorems (and nothing else). -/
 import Frugal.Proofs.BitsetLemmas
+import Frugal.Proofs.BuildCacheLemmas
 import Frugal.Props.Instances
 namespace Frugal.C07
 open Frugal
@@ -9,6 +10,46 @@ theorem presence_independent_of_pool (s0 s1 : BitSet) (req seen : List Nat) (r :
     (presenceRun Generated.params s1 req seen).test Generated.params r := by
   have h := bsOK_of_valid Instances.valid_bitset
   rw [presence_clean h s0 req seen r hr, presence_clean h s1 req seen r hr]
+
+/-- the code journals and rolls back a failed build as `BuildCache.useType` does (regenerated
+    structural fact about desc.go) -/
 theorem failed_build_rolled_back : Generated.facts.rollbackOnFailedBuild = true := Instances.facts_rollback
 theorem scratch_cleared : Generated.facts.scratchPooledAndCleared = true := by decide
+
+/-- descriptor caches (BuildCache.lean: `sds`, `prefetchStructDescCache`, the `Sd` links of the
+    type nodes): whatever calls were made earlier — successful or failed, on the same or other
+    types, with a type first used on its own or first met nested inside another — a use of a type
+    has the outcome it has in a fresh process -/
+theorem outcome_independent_of_history (R : List (Option SDesc)) (hist : List Nat) (sid : Nat) :
+    (useType R sid (useAll R hist {})).1 = (useType R sid {}).1 :=
+  use_history_independent R hist sid
+
+/-- … which is "every struct reachable from the type resolves" -/
+theorem outcome_is_reachability (R : List (Option SDesc)) (hist : List Nat) (sid : Nat) :
+    (useType R sid (useAll R hist {})).1 = true ↔ BGood R (sid, false) :=
+  useType_ok_iff R sid _ (useAll_inv R hist {} (cinv_empty R))
+
+/-- a failed use leaves every cache exactly as it was -/
+theorem failed_use_leaves_no_trace (R : List (Option SDesc)) (sid : Nat) (st : CacheSt)
+    (h : (useType R sid st).1 = false) : (useType R sid st).2 = st :=
+  useType_fail_unchanged R sid st h
+
+/-- after any history the caches hold only types all of whose dependencies resolve: a descriptor
+    met in a cache is a complete one -/
+theorem caches_complete (R : List (Option SDesc)) (hist : List Nat) : CInv R (useAll R hist {}) :=
+  useAll_inv R hist {} (cinv_empty R)
+
+/-- what the journal is for: without `rollbackBuild` (the tree before the repair of D10) a failed
+    use of `A{*B}`, `B{*A, *Bad}` leaves `*A` cached and linked, and a later use of `Sib{*A}` is
+    accepted although `Bad`, reachable from it, does not resolve -/
+def exR : List (Option SDesc) :=
+  [ some { fields := [{ id := 1, req := .optional, ty := .ptr (.strct 1) }] },          -- A{*B}
+    some { fields := [{ id := 1, req := .optional, ty := .ptr (.strct 0) },
+                      { id := 2, req := .optional, ty := .ptr (.strct 2) }] },          -- B{*A, *Bad}
+    none,                                                                                -- Bad
+    some { fields := [{ id := 1, req := .optional, ty := .ptr (.strct 0) }] } ]         -- Sib{*A}
+theorem noRollback_breaks :
+    (useTypeNoRollback exR 0 {}).1 = false ∧
+    (useTypeNoRollback exR 3 (useTypeNoRollback exR 0 {}).2).1 = true ∧
+    (useType exR 3 (useType exR 0 {}).2).1 = false ∧ (useType exR 3 {}).1 = false := by decide
 end Frugal.C07
